@@ -31,12 +31,12 @@ ASSUMPTIONS = [
 
 
 def bounds(tier):
-    return {"rows": [1, 3], "ops": ["wrap_K", "get_time_with_phase", "get_t0", "pack/unpack", "index int/neg int/slice/mask/array", "copy", "mean", "median_period"]}
+    return {"rows": [1, 3 if tier == "quick" else 5], "ops": ["wrap_K", "get_time_with_phase", "get_t0", "pack/unpack", "index int/neg int/slice/mask/array", "copy", "mean", "median_period"]}
 
 
 def shapes(tier):
     out = []
-    for n in (1, 2, 3):
+    for n in ((1, 2, 3) if tier == "quick" else (1, 2, 3, 4, 5)):
         for om in ("rad", "deg"):
             out.append({"op": "wrap_K", "n": n, "omega_unit": om})
         for punit in ("day", "sym"):
